@@ -132,9 +132,32 @@ func runPeek(rc *RunCtx) *Violation {
 	}
 	// with few elided types, bias token types towards them so that elided runs appear
 	pos := lexer.Position{Filename: "peek", Line: 1, Column: 1}
+	types := make([]lexer.TokenType, 0, n)
+	for i := 0; i < n; i++ {
+		types = append(types, peekTypes[simrt.Choose(4)])
+	}
+	if mask&15 != 0 && simrt.Choose(32) == 1 {
+		// a long run of elided tokens (a licence header of comment lines, a block of blank lines),
+		// with lengths around the widths of small counters
+		var et []lexer.TokenType
+		for b := 0; b < 4; b++ {
+			if mask&(1<<b) != 0 {
+				et = append(et, peekTypes[b])
+			}
+		}
+		l := []int{128, 256, 512}[simrt.Choose(3)] - 1 + simrt.Choose(3)
+		at := simrt.Choose(n + 1)
+		run := make([]lexer.TokenType, l)
+		for i := range run {
+			run[i] = et[simrt.Choose(len(et))]
+		}
+		types = append(types[:at:at], append(run, types[at:]...)...)
+		n = len(types)
+		rc.probe("run of 127-513 consecutive elided tokens")
+	}
 	flags := make([]byte, 0, n+1)
 	for i := 0; i < n; i++ {
-		tt := peekTypes[simrt.Choose(4)]
+		tt := types[i]
 		val := string(rune('a' + simrt.Choose(3)))
 		m.toks = append(m.toks, lexer.Token{Type: tt, Value: val, Pos: pos})
 		pos.Advance(val)
